@@ -293,6 +293,12 @@ impl Envelope {
         if !assertions.iter().all(|a| a.is_subject_assertion() || a.is_subject_obscured()) {
             bail!(EnvelopeError::InvalidFormat);
         }
+        // The assertions of a serialized node must already be in strictly
+        // ascending digest order: anything else is not the canonical encoding
+        // (out of order) or repeats an assertion (equal digests).
+        if !assertions.windows(2).all(|w| w[0].digest() < w[1].digest()) {
+            bail!(EnvelopeError::InvalidFormat);
+        }
         Ok(Self::new_with_unchecked_assertions(subject, assertions))
     }
 
